@@ -4,7 +4,8 @@ CHECK = {
                  "roots: init (mode probed, not assumed), init+override(off), init+override(on), init of a 0xff-filled object (capacities <= 3); "
                  "re-initialisation of the used object (NAME_init on fresh storage, capacities cap-1/cap/cap+1/1/max) is an operation of the search, its model is an empty ring of the new capacity whose mode is probed on a copy of the re-initialised object (the statement is silent on the mode after re-initialisation); "
                  "observers and both iterators run in every state, every iteration on iterator objects with 7 different histories; "
-                 "plus a bounded-exhaustive family of structured histories on capacities straddling 2^8 and 2^16 (thorough also 2^15, 2^17)",
+                 "plus a bounded-exhaustive family of structured histories on capacities straddling 2^8 and 2^16 (thorough also 2^15, 2^17); "
+                 "build variants: the search at capacities 1..3 is repeated with assertions enabled everywhere (the repository's default build type), and with the library objects and the application (this harness with its own template instances) built with different NDEBUG settings, both ways",
     "rule": "a case is one transition (operation applied to a reachable state) followed by size/empty/full and both iterators run to completion; non-trivial = everything but clear of an empty ring; "
             "path numbers 0..5 are put(A) put(B) get clear override(on) override(off), 100+B is NAME_init(object, fresh storage, B); "
             "probe cases: init, cap puts, one more put, get (decides the mode the model gives a freshly initialised ring); "
@@ -13,16 +14,27 @@ CHECK = {
                     "instances: library octet_ring (uint8_t) and harness instantiations of the same macro template for uint16_t/uint32_t/float/double/int64_t ('get returns the oldest element' holds for every element type the template is instantiated with)",
                     "the ring object is a flat struct; a state is restored on a fresh exact-size block by copying the object's octets (padding included) and pointing every aligned pointer-sized word whose value lay in [storage, storage + capacity * sizeof(TYPE)] at the same offset of the new block (the storage pointer, cached positions); keys and printed object images hold the offsets, never addresses; an integer member that happens to equal an address inside the storage would be mistaken for such a pointer",
                     "the state set of one search is limited to 8 x (from capacity 7: 4 x) (24 * cap * 2^cap + 400) states (the unchanged library reaches 78..243714 at capacities 1..10): an object whose image never repeats (counters of dropped/evicted elements) has no fixpoint, its search stops at the limit and the run is marked non-exhaustive",
-                    "no clause inspects head/tail or the iterator's index: a slot outside the storage is observed by ASan on the exact-size block",
+                    "no clause inspects head/tail or the iterator's index, and the harness names no member of the ring object: a slot outside the storage is observed by ASan on the exact-size block; a ring that moved its storage is seen by the pointer-rebasing restore (the fresh block's cells no longer follow the queue) and by ASan",
+                    "NDEBUG is a per-translation-unit setting of the C standard and not part of the statement: the property has to hold with assertions enabled (a failed assertion on a history of the statement is reported as memsafe/abort), and when the separately built library objects (octet_ring, rb_iter_done, rb_iter_advance) and the application that instantiates the header templates disagree on NDEBUG (public types whose layout depends on NDEBUG break there)",
                     "the override mode chosen by init is not assumed: it is observed on a fresh zeroed object (fill, one more put, get: dropped or evicted) and the model of every ring that was initialised for the first time -- on a zeroed object or on one that held 0xff octets -- starts in that mode; every other history sets the mode explicitly",
                     "the statement is silent on the mode of a ring that is initialised again after use (as a fresh one, or the mode configured before: either is a correct queue): it is observed on a copy of the re-initialised object (fill, one more put, get) and the model continues with what was seen; neither dropped nor evicted is a violation (C19/put-full)",
                     "NAME_init on a used object is read as the start of a new history of the statement (the ring then has the new capacity and is empty); a re-initialised state identical (object image, cells, model incl. mode) to the fresh root of another capacity is not explored again in this partition, that capacity's own search explores it",
                     "an rb_iter object may hold anything when NAME_iter is called on it (zero, 0xff, a finished or unfinished iteration over another ring or over this ring in the other direction): the statement's iterator clauses do not depend on the iterator object's past",
+                    "capacity 0 is not generated: the quantifier starts at capacity 1, and a ring of no elements has no admissible behaviour to compare (the unchanged library computes index % 0 there)",
                     "the lineage of the 0xff-filled object is kept within capacities <= 3 (its padding octets differ from a fresh object's, so none of its states is shared with the other roots)"],
     "harnesses": [{
         "name": "c19_ring", "src": "harness/c19_ring.c", "shape": "estate",
         "lib": ["src/octet-ring.c", "src/ring-buffer-iter.c"], "shards": 16, "opt": "-O2", "min_outcomes": 12,
         "require_outcomes": {"any": ["put-evicts", "put-dropped", "get-empty", "get-oldest", "clear",
                                      "reinit", "initial-dirty-object", "big-stored", "big-dropped", "big-evicts"]},
-    }],
+    }] + [{
+        # the same search (capacities 1..3) in the other NDEBUG configurations: NDEBUG is a per-translation-unit
+        # setting, the library objects and the application's own template instances are built separately
+        "name": n, "src": "harness/c19_ring.c", "shape": "estate",
+        "lib": ["src/octet-ring.c", "src/ring-buffer-iter.c"], "shards": 4, "opt": "-O1", "min_outcomes": 9,
+        "cflags": ["-DC19_LIGHT"] + fl,
+        "require_outcomes": {"any": ["put-evicts", "put-dropped", "get-empty", "get-oldest", "clear", "reinit", "initial-dirty-object"]},
+    } for n, fl in (("c19_ring_assertions", ["-UNDEBUG"]),
+                    ("c19_ring_lib_assertions_app_ndebug", ["-UNDEBUG", "-DC19_APP_NDEBUG"]),
+                    ("c19_ring_lib_ndebug_app_assertions", ["-DC19_APP_DEBUG"]))],
 }
